@@ -29,7 +29,9 @@ class Fn:
         self.blocks = self.body["blocks"] if self.body else []
         self.locals = self.body["locals"] if self.body else []
         self._defs = None
+        self._raw_defs = None
         self._cfg = None
+        self._cfg_building = False
         self._vp_cache = {}
 
     # ---- basic accessors
@@ -42,9 +44,10 @@ class Fn:
 
     def calls(self):
         """yield (bb, term) for every call terminator on non-cleanup blocks"""
+        live = self.cfg.reach
         for i, b in enumerate(self.blocks):
-            if b["cleanup"]:
-                continue
+            if b["cleanup"] or i not in live:
+                continue   # cleanup, or unreachable once constant conditions are folded
             t = b["term"]
             if t["k"] == "call":
                 yield i, t
@@ -60,38 +63,54 @@ class Fn:
         return self.body["arg_count"] if self.body else 0
 
     # ---- definitions of locals
+    def _compute_defs(self, live):
+        d = defaultdict(list)
+        p = defaultdict(list)
+        for bi, b in enumerate(self.blocks):
+            if b["cleanup"] or (live is not None and bi not in live):
+                continue
+            for si, s in enumerate(b["stmts"]):
+                if s["k"] == "assign":
+                    pl = s["place"]
+                    if not pl["proj"]:
+                        d[pl["local"]].append(("stmt", bi, si, s))
+                    else:
+                        p[pl["local"]].append(("stmt", bi, si, s))
+            t = b["term"]
+            if t["k"] == "call":
+                pl = t["dest"]
+                if not pl["proj"]:
+                    d[pl["local"]].append(("call", bi, t))
+                else:
+                    p[pl["local"]].append(("call", bi, t))
+        return d, p
+
     @property
     def defs(self):
-        """local -> list of ('stmt', bb, idx, stmt) | ('call', bb, term) whole-local definitions;
-        partial writes (through projections) are recorded in self.partial"""
+        """local -> list of ('stmt', bb, idx, stmt) | ('call', bb, term) whole-local definitions in reachable blocks
+        (unreachable = cleanup, or cut off once constant conditions are folded); partial writes (through projections)
+        are recorded in self.partial.  While the CFG itself is being built the unfiltered definitions are used."""
         if self._defs is None:
-            d = defaultdict(list)
-            p = defaultdict(list)
-            for bi, b in enumerate(self.blocks):
-                if b["cleanup"]:
-                    continue
-                for si, s in enumerate(b["stmts"]):
-                    if s["k"] == "assign":
-                        pl = s["place"]
-                        if not pl["proj"]:
-                            d[pl["local"]].append(("stmt", bi, si, s))
-                        else:
-                            p[pl["local"]].append(("stmt", bi, si, s))
-                t = b["term"]
-                if t["k"] == "call":
-                    pl = t["dest"]
-                    if not pl["proj"]:
-                        d[pl["local"]].append(("call", bi, t))
-                    else:
-                        p[pl["local"]].append(("call", bi, t))
-            self._defs = d
-            self.partial = p
+            if self._cfg is None and not self._cfg_building:
+                _ = self.cfg
+            if self._cfg is None:
+                if self._raw_defs is None:
+                    self._raw_defs = self._compute_defs(None)
+                    self.partial = self._raw_defs[1]
+                return self._raw_defs[0]
+            self._defs, self.partial = self._compute_defs(self._cfg.reach)
         return self._defs
 
     @property
     def cfg(self):
         if self._cfg is None:
-            self._cfg = CFG(self)
+            self._cfg_building = True
+            try:
+                c = CFG(self)
+            finally:
+                self._cfg_building = False
+            self._cfg = c
+            self._defs = None
         return self._cfg
 
     def promoted_fn(self, n):
@@ -114,6 +133,17 @@ class Program:
         # no_std builds name the same items through `core::` / `alloc::`: normalise to the `std::` paths
         text = _re.sub(r'(?<![A-Za-z0-9_])(?:core|alloc)::', 'std::', text)
         self.j = json.loads(text)
+        self.inline_report = None
+        if config != "fixture":
+            from .inline import inline_new_helpers
+            import os as _os
+            kp = _os.path.join(_os.path.dirname(_os.path.dirname(_os.path.abspath(__file__))), "rules", "known_functions.json")
+            try:
+                known = set(json.load(open(kp)))
+            except OSError:
+                known = None
+            if known:
+                self.inline_report = inline_new_helpers(self.j, known)
         self.fns = {}
         dup = set()
         for f in self.j["fns"]:
@@ -125,6 +155,13 @@ class Program:
         self.impls = self.j["impls"]
         self._closure_sites = None
         self._fx = None
+        self._vp0 = None
+
+    @property
+    def vp0(self):
+        if self._vp0 is None:
+            self._vp0 = VP(self)
+        return self._vp0
 
     def fn(self, key):
         return self.fns.get(key)
@@ -195,6 +232,19 @@ class CFG:
                     if len(ds) == 1 and ds[0][0] == "stmt" and ds[0][3]["rv"]["k"] == "use" and ds[0][3]["rv"]["op"]["k"] == "const" \
                             and not fn.locals[d["place"]["local"]]["name"]:
                         d = ds[0][3]["rv"]["op"]
+                if d["k"] != "const" and getattr(fn.prog, "const_switches", True) and fn.prog is not None and hasattr(fn.prog, "fns"):
+                    # a condition that is a constant through single assignments, closure captures and the arguments of an
+                    # inlined helper (`helper(.., true)`): only the matching edge is real
+                    try:
+                        tv = strip(fn.prog.vp0.operand(fn, d))
+                    except (RecursionError, KeyError, IndexError, TypeError):
+                        tv = None
+                    hops = 0
+                    while tv is not None and tv[0] in ("ref", "deref") and hops < 4:
+                        tv = strip(tv[1])
+                        hops += 1
+                    if tv is not None and tv[0] == "const" and isinstance(tv[1], str):
+                        d = {"k": "const", "s": tv[1]}
                 if d["k"] == "const":
                     # `if cfg!(debug_assertions)` / `if false`: only the matching edge is real
                     cv = {"const false": 0, "false": 0, "const true": 1, "true": 1}.get(d["s"], const_int(("const", d["s"])))
